@@ -234,7 +234,39 @@ template <class A> static int run(int argc, char** argv) {
     return 0;
 }
 
+// probe_unlock: facts about the RELEASING side of the sleeping locks, extracted from the running code (DESIGN 2.6).  tbb::mutex / tbb::rw_mutex wake their
+// sleepers with notify_*_relaxed(), which reads the wait-set without a fence of its own: the protocol (Monitor.tla instantiated with FENCE_N = FALSE) is only
+// correct under TSO if the releasing write to the lock word is itself a full operation (an RMW / CAS / seq_cst store, or a full fence before the wait-set is
+// read) - constant CLIENT_SC.  Each releasing operation is run alone on a logical thread and its access sequence is inspected.
+template <class F> static int releasing_write_is_full(const void* lo, size_t len, F op) {
+    struct Ev { int kind, order; const void* addr; }; std::vector<Ev> evs;
+    Sched S; focus_only(false);
+    S.spawn(1, [&](int) { yield_point(); op(); yield_point(); });
+    while (!S.done(0)) { Pending p = S.pending(0); evs.push_back({p.kind, p.order, p.addr}); S.step(0); }
+    S.join_all();
+    auto inside = [&](const void* a) { return (const char*)a >= (const char*)lo && (const char*)a < (const char*)lo + len; };
+    bool written = false; int verdict = -1;
+    for (auto& e : evs) {
+        bool full = (e.kind == K_FENCE && e.order == (int)std::memory_order_seq_cst) || e.kind == K_RMW || e.kind == K_CAS || (e.kind == K_STORE && e.order == (int)std::memory_order_seq_cst);
+        if (!written) { if (inside(e.addr) && (e.kind == K_STORE || e.kind == K_RMW || e.kind == K_CAS)) { written = true; if (full) { verdict = 1; break; } } continue; }
+        if (full) { verdict = 1; break; }
+        if (e.kind == K_LOAD && !inside(e.addr)) { verdict = 0; break; }       // the wait-set is read with the releasing store possibly still buffered
+    }
+    if (written && verdict < 0) verdict = 0;
+    return verdict;     // -1: no releasing write seen (inconclusive)
+}
+static int probe_unlock() {
+    int f_mutex, f_rw_unlock, f_rw_unlock_shared, f_rw_downgrade;
+    { tbb::mutex m; m.lock(); f_mutex = releasing_write_is_full(&m, sizeof m, [&] { m.unlock(); }); }
+    { tbb::rw_mutex m; m.lock(); f_rw_unlock = releasing_write_is_full(&m, sizeof m, [&] { m.unlock(); }); }
+    { tbb::rw_mutex m; m.lock_shared(); f_rw_unlock_shared = releasing_write_is_full(&m, sizeof m, [&] { m.unlock_shared(); }); }
+    { tbb::rw_mutex m; tbb::rw_mutex::scoped_lock sl(m, true); f_rw_downgrade = releasing_write_is_full(&m, sizeof m, [&] { sl.downgrade_to_reader(); }); }
+    printf("{\"mutex_unlock_full\":%d,\"rw_unlock_full\":%d,\"rw_unlock_shared_full\":%d,\"rw_downgrade_full\":%d}\n", f_mutex, f_rw_unlock, f_rw_unlock_shared, f_rw_downgrade);
+    return 0;
+}
+
 int main(int argc, char** argv) {
+    if (argc >= 2 && !strcmp(argv[1], "probe_unlock")) return probe_unlock();
     if (argc < 6) { fprintf(stderr, "usage\n"); return 2; }
     std::string lk = argv[1];
     if (lk == "spin_mutex") return run<AdSpin>(argc, argv);
